@@ -35,7 +35,7 @@ pub struct Item {
     pub b: [f64; 4],
     /// spelling flags: bit0 shorthand where applicable, bit1 start spelled x1/y1, bit2 length spelled as radius (circle/ellipse),
     /// bits3-4 separator (0 space, 1 comma, 2 comma-space), bit5 single value when both equal,
-    /// bits6-7 how the element is written: 0 `<rect ../>`, 1 `<rect ..></rect>`, 2 `<rect ..>` newline `</rect>`
+    /// bits6-7 how the element is written: 0 `<rect ../>`, 1 `<rect ..></rect>`, 2 `<rect ..>` newline `</rect>`, 3 with a `<title>` / `<animate>` child
     pub sp: u8,
     /// 0 none, 1 dxy, 2 dx+dy, 3 dwh, 4 dw+dh (absolute), 5 dw/dh percent
     pub delta: u8,
@@ -273,7 +273,7 @@ fn enumerate(tier: Tier, seed: u64) -> Vec<Case> {
                             let d = [((k % 9) as f64 - 4.0) / 2.0 + 0.25, ((k % 7) as f64 - 3.0) / 4.0];
                             // the same element in its three spellings (XML: an empty-element tag and a start/end tag pair are
                             // the same element; white space alone between the tags of a shape is formatting)
-                            let sp = sp | (match k % 5 { 1 => 1u8, 3 => 2, _ => 0 }) << 6;
+                            let sp = sp | (match k % 7 { 1 => 1u8, 3 => 2, 5 => 3, _ => 0 }) << 6;
                             let it = Item { px, py, b, sp, delta, d };
                             if item_attrs(shape, &it).is_some() {
                                 items.push(it);
@@ -329,6 +329,8 @@ impl Property for C11 {
             match it.sp >> 6 {
                 1 => e.kids.push(gen::X::Raw(String::new())),
                 2 => e.kids.push(gen::X::Raw("\n  ".into())),
+                // a shape may hold descriptive or animation elements: it is laid out all the same
+                3 => e.kids.push(gen::X::Raw(if i % 2 == 0 { "<title>tip</title>" } else { "<animate attributeName=\"opacity\" to=\"0.5\" dur=\"1s\"/>" }.into())),
                 _ => {}
             }
             els.push(e);
